@@ -32,6 +32,7 @@ PROPS["C13"] = dict(
         "Zrnt.Proofs.C13.deposit_proof_verifies",
         "Zrnt.Proofs.C13.genesis_eq_spec_partial",
         "Zrnt.Proofs.C13.kickstart_is_genesis_partial",
+        "Zrnt.Proofs.C13.isValidGenesis_eq_spec",
         "Zrnt.Proofs.C13.genesis_effective_balance",
         "Zrnt.Proofs.C13.genesis_activation",
         "Zrnt.Proofs.C13.topup_no_new_validator",
